@@ -223,9 +223,13 @@ def _run_path(m: Machine, ctx: Ctx, module, cls, fnode, contract, key, res, case
                 allowed.add(k_)
         fresh_ = getattr(m, "new_refs", [])
         self_t = loc["self"].t if (is_init and "self" in loc) else None
+        engine_counters_ = {ds.counter for lst in getattr(m.registry, "dict_sums", {}).values() for ds in lst}
         for key_, ref_ in m.heap.dirty:
             if key_ in allowed:
                 continue
+            if key_[1] in engine_counters_ and not any(k2[1] in engine_counters_ for k2 in allowed):
+                continue  # engine-maintained sum counters (R.dict_sum) are not writes of the program; functions that do
+                # declare them in modifies (the recovery layer) are still checked
             if opaque_ok and (key_ == ("<opaque>", "*") or key_ not in getattr(m, "_opaque_keep", set())):
                 continue
             if ref_ is not None and (any(ref_.eq(r) for r in fresh_) or (self_t is not None and ref_.eq(self_t))):
@@ -389,8 +393,9 @@ def _frame_check(m, env, contract):
         allowed.add((loc[:-3] if loc.endswith("[*]") else loc).split(".")[-1])
     new_refs = getattr(m, "new_refs", [])
     out = []
+    engine_counters = {ds.counter for lst in getattr(m.registry, "dict_sums", {}).values() for ds in lst}
     for (owner, f), arr in m.heap.arrays.items():
-        if f in allowed:
+        if f in allowed or f in engine_counters:
             continue
         old = env.old_heap.arrays.get((owner, f))
         cur = arr
